@@ -55,7 +55,8 @@ def after_return(x):
 CYCLE_A = "import cycb\n\n\ndef ga():\n    return cycb\n"
 CYCLE_B = "import cyca\n\n\ndef gb():\n    return cyca\n"
 
-EXTRA_FILES = {"deadkinds.py": DEADKINDS, "cyca.py": CYCLE_A, "cycb.py": CYCLE_B}
+STUB = "def stub_fn(x):\n    if x:\n        return 1\n    if x is None:\n        return 3\n    return 2\n"
+EXTRA_FILES = {"deadkinds.py": DEADKINDS, "cyca.py": CYCLE_A, "cycb.py": CYCLE_B, "stubs.pyi": STUB}
 SELECT_FILES = {"complexity": ["cxmod.py"], "deadcode": ["deadmod.py", "deadkinds.py"], "clones": ["clone_a.py", "clone_b.py", "clone_c.py"],
                 "cbo": ["cbomod.py"], "lcom": ["lcmod.py"], "deps": ["cyca.py", "cycb.py", "cxmod.py"]}
 
@@ -401,6 +402,36 @@ def run_key_case(args):
     return dict(rc=rc, data=data, reports=reports, stderr=err[-500:], argv=["analyze", "--no-open"] + argv + ["."])
 
 
+BAD_CONFIGS = [("syntax", "[complexity\nmax_complexity = 30\n"), ("type", "[complexity]\nmax_complexity = \"thirty\"\n"),
+               ("type-bool", "[dead_code]\ndetect_after_return = 3\n")]
+
+
+def run_bad_config(args):
+    """A configuration file in force that cannot be loaded: the run must be refused, not continued with defaults."""
+    c17, idx, cmd, how, kind, text, root = args
+    d = os.path.join(root, "badcfg%02d" % idx, "proj")
+    shutil.rmtree(os.path.dirname(d), ignore_errors=True)
+    write_files(c17, d, ["cxmod.py"])
+    argv = ["--select", "complexity"]
+    if how == "explicit":
+        cp = os.path.join(os.path.dirname(d), "my.toml")
+        argv += ["--config", cp]
+    else:
+        cp = os.path.join(d, how)
+    if how == "pyproject.toml":
+        text = "[project]\nname = \"x\"\n\n" + text.replace("[", "[tool.pyscn.", 1)
+    with open(cp, "w") as f:
+        f.write(text)
+    if cmd == "analyze":
+        rc, data, err = c17.run_analyze(d, argv)
+        ran = data is not None
+    else:
+        rc, lines, err = c17.run_check(d, argv)
+        ran = "Code quality check passed" in err or bool(lines)
+    shutil.rmtree(os.path.dirname(d), ignore_errors=True)
+    return dict(cmd=cmd, how=how, kind=kind, rc=rc, ran=ran, stderr=err[-400:], argv=[cmd] + argv + ["."], config=text)
+
+
 class _NoFile:
     def __repr__(self):
         return "<key absent>"
@@ -419,6 +450,7 @@ def canon_full(c17, data):
         o["echo_" + sec] = e
     s = data.get("system") or {}
     da = s.get("DependencyAnalysis") or {}
+    o["files"] = sorted({os.path.basename(f["FilePath"]) for f in ((data.get("complexity") or {}).get("Functions") or [])})
     o["system"] = {"deps": s.get("DependencyAnalysis") is not None, "arch": s.get("ArchitectureAnalysis") is not None,
                    "modules": sorted(m.split(".")[-1] for m in (da.get("ModuleMetrics") or {})),
                    "cycles": ((da.get("CircularDependencies") or {}).get("TotalCycles"))}
@@ -427,13 +459,14 @@ def canon_full(c17, data):
 
 def run_defaults_case(args):
     c17, name, toml, root = args
-    d = os.path.join(root, "defaults_" + name, "proj")
+    d = os.path.join(root, "defaults_" + name.replace("+", "_"), "proj")
     shutil.rmtree(os.path.dirname(d), ignore_errors=True)
-    write_files(c17, d, sorted(set(c17.FILES) | set(EXTRA_FILES)))
+    stub = name.endswith("+pyi")
+    write_files(c17, d, sorted((set(c17.FILES) | set(EXTRA_FILES)) - (set() if stub else {"stubs.pyi"})))
     if toml is not None:
         with open(os.path.join(d, "pyproject.toml" if name == "pyproject" else ".pyscn.toml"), "w") as f:
             f.write(toml)
-    rc, data, err = c17.run_analyze(d, [])
+    rc, data, err = c17.run_analyze(d, ["--min-complexity", "1"] + (["--select", "complexity"] if stub else []))
     shutil.rmtree(os.path.dirname(d), ignore_errors=True)
     return dict(name=name, rc=rc, data=data, stderr=err[-500:])
 
@@ -468,18 +501,29 @@ class KeySweep:
                     self.cases.append((k, v))
                     self.where.append(("job", len(self.jobs)))
                     self.jobs.append((c17, len(self.jobs), k, v, "pyproject", root))
+        # (name, file text); "...+pyi": a project with a stub file, a configuration file that only sets an unrelated key to its default
         self.djobs = [(c17, "nofile", None, root), (c17, "pyscn", explicit_defaults_toml(""), root),
-                      (c17, "pyproject", "[project]\nname = \"sample\"\n\n" + explicit_defaults_toml("tool.pyscn."), root)]
-        self.ex = self.fut = self.fut_d = None
+                      (c17, "pyproject", "[project]\nname = \"sample\"\n\n" + explicit_defaults_toml("tool.pyscn."), root),
+                      (c17, "nofile+pyi", None, root), (c17, "minimal+pyi", "[lcom]\nlow_threshold = 2\n", root)]
+        self.bjobs = []
+        for cmd in ("analyze", "check"):
+            for how in (".pyscn.toml", "pyproject.toml", "explicit"):
+                kind, text = rng.choice(BAD_CONFIGS) if not thorough else BAD_CONFIGS[len(self.bjobs) % len(BAD_CONFIGS)]
+                if how == "pyproject.toml" and kind == "syntax":
+                    kind, text = BAD_CONFIGS[1]      # an unparsable pyproject.toml is not recognisably pyscn's: skipped like any other
+                self.bjobs.append((c17, len(self.bjobs), cmd, how, kind, text, root))
+        self.ex = self.fut = self.fut_d = self.fut_b = None
 
     def start(self, workers=8):
         self.ex = ThreadPoolExecutor(max_workers=workers)
         self.fut_d = [self.ex.submit(run_defaults_case, j) for j in self.djobs]
         self.fut = [self.ex.submit(run_key_case, j) for j in self.jobs]
+        self.fut_b = [self.ex.submit(run_bad_config, j) for j in self.bjobs]
 
     def wait(self):
         impl = [f.result() for f in self.fut]
         self.dres = [f.result() for f in self.fut_d]
+        self.bres = [f.result() for f in self.fut_b]
         self.ex.shutdown()
         self.res = [impl[self.absent_runs[w[1]]] if w[0] == "absent" else impl[w[1]] for w in self.where]
 
@@ -581,32 +625,43 @@ class KeySweep:
                         st["spec_bad"] += 1
                         ck.violation("analyze: [%s] %s: the report echoes the value %s but %s" % (k.section, k.key, json.dumps(inforce), bad), replay)
 
+        # ---- (D3) a configuration file that cannot be loaded ------------------------------------------------------------
+        st["unloadable_config_runs"] = len(self.bres)
+        for r in self.bres:
+            if r["rc"] == 0 or r["ran"]:
+                st["spec_bad"] += 1
+                ck.violation("pyscn %s goes on although its configuration file (%s, %s error) cannot be loaded: exit %s"
+                             % (r["cmd"], r["how"], r["kind"], r["rc"]), r)
+
         # ---- (D2) explicit defaults ------------------------------------------------------------------------------------
-        base = dres[0]
         st["explicit_defaults"] = []
-        if base["data"] is None:
-            ck.broken_ties.append("key sweep: analyze without configuration wrote no report: %s" % base["stderr"][-300:])
-        else:
+        for j, r in enumerate(dres):
+            if r["name"].startswith("nofile"):
+                continue
+            base = dres[3] if r["name"].endswith("+pyi") else dres[0]
+            if base["data"] is None:
+                ck.broken_ties.append("key sweep: analyze without configuration wrote no report: %s" % base["stderr"][-300:])
+                continue
             cb = canon_full(c17, base["data"])
-            for j, r in enumerate(dres[1:]):
-                if r["data"] is None:
+            what = ("a configuration file that only sets [lcom] low_threshold to its default" if r["name"].endswith("+pyi") else
+                    "a %s file that spells out every key with its documented default" % r["name"])
+            if r["data"] is None:
+                st["spec_bad"] += 1
+                ck.violation("analyze refuses %s (exit %s): %s" % (what, r["rc"], r["stderr"][-300:]), {"style": r["name"], "config": djobs[j][2]})
+                continue
+            cr = canon_full(c17, r["data"])
+            diffs = ["%s: %s vs %s" % (kk, json.dumps(cb.get(kk), default=str)[:160], json.dumps(cr.get(kk), default=str)[:160])
+                     for kk in sorted(set(cb) | set(cr)) if cb.get(kk) != cr.get(kk)]
+            st["explicit_defaults"].append({"style": r["name"], "same": not diffs})
+            if diffs or r["rc"] != base["rc"]:
+                only_pyi = set(cb.get("files") or []) - set(cr.get("files") or []) == {"stubs.pyi"} and set(cr.get("files") or []) <= set(cb.get("files") or [])
+                e = ck.match_known({"part": "explicit-defaults", "style": r["name"], "only_the_pyi_file_dropped": only_pyi})
+                if e:
+                    st["known"] += 1
+                    ck.known_finding(e)
+                else:
                     st["spec_bad"] += 1
-                    ck.violation("analyze refuses a %s file that spells out every key with its documented default (exit %s): %s"
-                                 % (r["name"], r["rc"], r["stderr"][-300:]), {"style": r["name"], "config": djobs[1 + j][2]})
-                    continue
-                cr = canon_full(c17, r["data"])
-                diffs = ["%s: %s vs %s" % (kk, json.dumps(cb.get(kk), default=str)[:160], json.dumps(cr.get(kk), default=str)[:160])
-                         for kk in sorted(set(cb) | set(cr)) if cb.get(kk) != cr.get(kk)]
-                st["explicit_defaults"].append({"style": r["name"], "same": not diffs})
-                if diffs or r["rc"] != base["rc"]:
-                    e = ck.match_known({"part": "explicit-defaults", "style": r["name"]})
-                    if e:
-                        st["known"] += 1
-                        ck.known_finding(e)
-                    else:
-                        st["spec_bad"] += 1
-                        ck.violation("a %s file that spells out every key with its documented default changes the results: %s"
-                                     % (r["name"], "; ".join(diffs)[:900]), {"style": r["name"], "config": djobs[1 + j][2], "diffs": diffs})
+                    ck.violation("%s changes the results: %s" % (what, "; ".join(diffs)[:900]), {"style": r["name"], "config": djobs[j][2], "diffs": diffs})
         return st
 
 
